@@ -4,3 +4,11 @@ import AvoVerif.Props.C12
 #print axioms Avo.Print.parse_stubs
 #print axioms Avo.Print.declared_once
 #print axioms Avo.Print.stubs_match_asm
+#print axioms Avo.Print.acceptStubs_sound
+#print axioms Avo.Print.acceptCons_sound
+#print axioms Avo.Print.stub_text_lines
+#print axioms Avo.Print.acceptStubs_model
+#print axioms Avo.Print.stub_text_reads_back
+#print axioms Avo.Print.stub_names_are_text_symbols
+#print axioms Avo.Print.newline_injects_declaration
+#print axioms Avo.Print.wfStubsB_sound
